@@ -560,6 +560,11 @@ func main() {
 			}
 			if inOK && len(p.inS) == len(p.outS) {
 				for k := range p.outS {
+					// only a script that had text in the input is judged: on malformed input (a stray </script> inside foreign
+					// content) the output can turn markup into script text; that is a change of the document (C03), not of validity
+					if len(bytes.TrimSpace(p.inS[k])) == 0 {
+						continue
+					}
 					if e := nodeRes[key(i, "out", k)]; e != "" {
 						add(j, "invalid-output:html-script:"+classify(e), e, "every script element of the output parses in V8", clip(p.outS[k]))
 					}
